@@ -150,7 +150,7 @@ func siblingCompare(r *R, rule, rel string, fns []*ssa.Function, skip map[string
 		}
 	}
 	need := 5
-	if len(minN) > 0 {
+	if len(minN) > 0 && minN[0] > 0 {
 		need = minN[0]
 	}
 	r.Ob(rule, "sibling-instances:"+rel).Must(n >= need, "only %d functions compared with %s", n, rel).OK("%d functions compared with the upstream sibling, %d identical in effect", n, same)
@@ -188,12 +188,17 @@ var forkSkips = map[string]string{
 	"http2.init": "package initialiser (synthetic and declared init share the name); package-level tables are compared by value instead",
 }
 
+// minSiblings: vacuity guard per property (number of functions that must have been compared; 0 = default of 5).
+var minSiblings = map[string]int{"C09": 3}
+
 // Which functions of the vendored HTTP/2 code bear on which property (regular expressions over rendered function names).
 // The sibling comparison of a property is restricted to them, so that a deviation elsewhere alarms only the property it concerns.
 var propFuncs = map[string][]string{
 	"C08": {`^\(\*http2\.pipe\)`, `^\(\*http2\.dataBuffer\)`, `^http2\.(getDataBufferChunk|putDataBufferChunk)$`, `^\(\*http2\.writeData\)`, `^\(\*http2\.writeResHeaders\)`, `^http2\.(encodeHeaders|encKV|splitHeaderBlock|writeEndsStream)`,
 		`^\(\*http2\.responseWriter(State)?\)`, `^\(\*http2\.requestBody\)`, `^\(\*http2\.serverConn\)\.(writeDataFromHandler|writeFrameFromHandler|writeHeaders|write100ContinueHeaders|newWriterAndRequest|newWriterAndRequestNoBody|newResponseWriter|processData|writeFrameAsync|wroteFrame|runHandler|writeFrame|scheduleFrameWrite|startFrameWrite|resetStream|closeStream|handlerDone|processSettings|processSetting|processSettingInitialWindowSize|processWindowUpdate)$`, `^\\(\\*http2\\.outflow\\)`,
 		`^\(\*http2\.stream\)\.(endStream|copyTrailersToHandlerRequest|processTrailerHeaders)$`, `^http2\.(checkWriteHeaderCode|cloneHeader|foreachHeaderElement)$`, `^\(\*http2\.writeQueue\)`, `^\(http2\.FrameWriteRequest\)\.Consume$`},
+	"C09": {`^\(\*http2\.serverConn\)\.(newWriterAndRequest|newWriterAndRequestNoBody|canonicalHeader)$`},
+	"C18": {`^\(\*?http2\.(writeResHeaders|writePushPromise|write100ContinueHeadersFrame)\)`, `^http2\.(encodeHeaders|encKV|splitHeaderBlock)$`, `^\(\*http2\.serverConn\)\.(HeaderEncoder|processSetting|writeHeaders|write100ContinueHeaders)$`, `^\(\*http2\.Framer\)\.(readMetaFrame|WriteHeaders|WriteContinuation|WritePushPromise)$`},
 	"C10": {`^http2\.(parse|read)`, `^\(\*http2\.Framer\)\.(ReadFrame|readMetaFrame|checkFrameOrder|maxHeaderStringLen|maxHeaderListSize)`, `^\(\*http2\.serverConn\)\.(readFrames|writeFrameAsync|serve|notePanic|runHandler|sendServeMsg|readPreface|processFrameFromReader|setConnState|onSettingsTimer|onIdleTimer|onReadIdleTimer|onShutdownTimer|handlePingTimer)$`,
 		`^\(\*http2\.Server\)\.(ServeConn|serveConn)$`, `^\(\*http2\.stream\)\.(onReadTimeout|onWriteTimeout)$`, `\)\.(writeFrame|staysWithinBuffer|writeHeaderBlock)$`, `^\(\*http2\.(SettingsFrame|MetaHeadersFrame|HeadersFrame|DataFrame|FrameHeader)\)`, `^http2\.(splitHeaderBlock|terminalReadFrameError|isClosedConnError)`},
 	"C11": {`^\(\*http2\.serverConn\)\.(serve|readFrames|writeFrameAsync|closeAllStreamsOnConnClose|stopShutdownTimer|closeStream|onSettingsTimer|onIdleTimer|onReadIdleTimer|onShutdownTimer|handlePingTimer|sendServeMsg|readPreface|startGracefulShutdown|startGracefulShutdownInternal|goAway|shutDownIn|scheduleFrameWrite|wroteFrame|processHeaders|newStream|runHandler|handlerDone|writeFrameFromHandler|writeDataFromHandler|writeHeaders|noteBodyReadFromHandler)$`,
@@ -237,7 +242,7 @@ func forkSiblingRule(r *R, rule string, files ...string) {
 			}
 		}
 	}
-	siblingCompare(r, rule, "pkg/zz_ref_http2", fns, forkSkips, "vendored HTTP/2 function")
+	siblingCompare(r, rule, "pkg/zz_ref_http2", fns, forkSkips, "vendored HTTP/2 function", minSiblings[r.Prop])
 }
 
 // forkTablesRule compares the package-level initialisers (lookup tables, constants) of the fork with upstream.
